@@ -172,7 +172,7 @@ class ImageBands(NITFLoop):
     @NITFLoop.values.setter
     def values(self, value):
         NITFLoop.values.fset(self, value)
-        if value and len(value) > 9:
+        if value is None or len(value) == 0 or len(value) > 9:
             self._count_size = self.NBANDS_LEN + self.XBANDS_LEN
         else:
             self._count_size = self.NBANDS_LEN
